@@ -1524,7 +1524,9 @@ func ExtractTransactionOffsets(cborData []byte) (*BlockTransactionOffsets, error
 	// Shelley+ block layout: [header, tx_bodies[], witnesses[], metadata_map, ...]
 	// Calculate header size by finding where blockArray[0] starts
 	// CBOR array header is 1 byte for arrays < 24 elements, more for larger
-	arrayHeaderSize := cborArrayHeaderSize(len(blockArray))
+	// Use the size of the header that is actually present: the array length
+	// may be encoded non-minimally or as an indefinite-length array
+	_, arrayHeaderSize, _ := cborArrayInfo(cborData)
 
 	// blockArray[0] is the header, blockArray[1] is tx bodies, blockArray[2] is witnesses
 	// blockArray[3] is metadata (if present)
@@ -1581,12 +1583,8 @@ func ExtractTransactionOffsets(cborData []byte) (*BlockTransactionOffsets, error
 
 	// Calculate body offsets within the tx bodies array.
 	// Check for indefinite-length array (0x9f) which uses 1-byte header.
-	var bodiesArrayHeader uint32
-	if int(txBodiesOffset) < len(cborData) && cborData[txBodiesOffset] == 0x9f {
-		bodiesArrayHeader = 1
-	} else {
-		bodiesArrayHeader = cborArrayHeaderSize(len(txBodiesRaw))
-	}
+	// Use the actual header size (definite, non-minimal or indefinite form).
+	_, bodiesArrayHeader, _ := cborArrayInfo(blockArray[1])
 	bodyPos := txBodiesOffset + bodiesArrayHeader
 	for i, rawBody := range txBodiesRaw {
 		bodyLen := uint32(len(rawBody)) // #nosec G115 -- Cardano block segments are <<4GiB
@@ -1603,12 +1601,8 @@ func ExtractTransactionOffsets(cborData []byte) (*BlockTransactionOffsets, error
 
 	// Calculate witness offsets within the witnesses array.
 	// Check for indefinite-length array (0x9f) which uses 1-byte header.
-	var witnessArrayHeader uint32
-	if int(witnessesOffset) < len(cborData) && cborData[witnessesOffset] == 0x9f {
-		witnessArrayHeader = 1
-	} else {
-		witnessArrayHeader = cborArrayHeaderSize(len(witnessesRaw))
-	}
+	// Use the actual header size (definite, non-minimal or indefinite form).
+	_, witnessArrayHeader, _ := cborArrayInfo(blockArray[2])
 	witnessPos := witnessesOffset + witnessArrayHeader
 	for i, rawWitness := range witnessesRaw {
 		if i < len(result.Transactions) {
